@@ -5,8 +5,8 @@ use crate::{
         expression::{format_expression, hang_expression, is_brackets_string},
         functions::should_collapse_function_body,
         general::{
-            format_contained_span, format_end_token, format_token, format_token_reference,
-            trivia_to_vec, EndTokenType, FormatTokenType,
+            format_contained_span, format_end_token, format_moved_comment, format_token,
+            format_token_reference, trivia_to_vec, EndTokenType, FormatTokenType,
         },
         trivia::{strip_trivia, FormatTriviaType, UpdateLeadingTrivia, UpdateTrailingTrivia},
         trivia_util::{self, CommentSearch, GetTrailingTrivia, HasInlineComments},
@@ -42,7 +42,11 @@ fn format_field_expression_value(
 ) -> Expression {
     // Remove singleline comments from the output expression as it will be moved after the comma
     // Retain multiline comments in place
-    let multiline_comments = expression.trailing_comments_search(CommentSearch::Multiline);
+    let multiline_comments = expression
+        .trailing_comments_search(CommentSearch::Multiline)
+        .iter()
+        .map(|x| format_moved_comment(ctx, x, shape))
+        .collect();
     let trailing_trivia = FormatTriviaType::Replace(multiline_comments);
 
     if trivia_util::can_hang_expression(expression) {
@@ -91,9 +95,8 @@ fn handle_field_key_equals_comments<T: Node>(
     let key_leading_comments = key_trailing_trivia
         .iter()
         .filter(|token| trivia_util::trivia_is_comment(token))
-        .map(|x| x.to_owned())
-        .chain(equal_sign_comments)
-        .map(|x| x.to_owned())
+        .map(|x| x.to_owned().to_owned())
+        .chain(equal_sign_comments.map(|x| format_moved_comment(ctx, x, shape)))
         .flat_map(|trivia| {
             // Prepend an indent before the comment, and append a newline after the comments
             vec![
